@@ -1,7 +1,263 @@
-(* C07 — Data stay aligned with the geometry they are attached to. *)
+(* C07 — Data stay aligned with the geometry they are attached to.
+   Statements only (closed by [exact]/short glue), each followed by Print Assumptions.
+   Model: Model/Geometry.v (flags [as_is] = pinned tree, [repaired] = tree with fixes/C07-*.patch);
+   vocabulary ([selection], [sel_kid], [closed], [vmask], [touches], [op_safe], ...) is defined in Proofs/GeometryProofs.v.
+
+   Reading guide.  [selection vm cm o o'] says: o' is o restricted to the vertices kept by the mask vm and the cells
+   kept by cm (cm only keeps cells all of whose vertices are kept), vertices and cells in their old order, cells
+   renumbered by [rank vm], every vertex child filtered by vm, every cell child by cm, other children untouched.
+   The C07_selection_* theorems spell out what that means element by element; the operation theorems show that
+   remove_vertices / remove_cells / masked copy produce such a selection for the expected masks.                   *)
 From GV Require Import Prelude.Base Model.Geometry Proofs.GeometryProofs.
 
-Theorem C07_select_length : forall A (m : list bool) (l : list A),
-  length m = length l -> length (select m l) = count m.
-Proof. intros A. exact (@count_select_length A). Qed.
-Print Assumptions C07_select_length.
+(* ------------------------------------------------------------------ what a selection guarantees *)
+
+(* lengths: exactly one data entry per vertex / cell, cells reference existing vertices *)
+Theorem C07_selection_consistent : forall vm cm o o', wf o -> selection vm cm o o' -> wf o'.
+Proof. exact selection_wf. Qed.
+Print Assumptions C07_selection_consistent.
+
+Theorem C07_selection_counts : forall vm cm o o', selection vm cm o o' ->
+  length (verts o') = count vm /\ length (cells o') = count cm.
+Proof. intros vm cm o o' H. split; [eapply selection_vertex_count|eapply selection_cell_count]; eauto. Qed.
+Print Assumptions C07_selection_counts.
+
+(* each surviving vertex keeps its coordinates and its value in every vertex child *)
+Theorem C07_selection_vertex_kept : forall vm cm o o' i,
+  wf o -> selection vm cm o o' -> nth_error vm i = Some true ->
+  nth_error (verts o') (rank vm i) = nth_error (verts o) i /\
+  forall p k v, nth_error (kids o) p = Some k -> kassoc k = AVertex -> kvals k = Some v ->
+    exists k' v', nth_error (kids o') p = Some k' /\ kid_id k' = kid_id k /\ kassoc k' = AVertex /\ kvals k' = Some v' /\
+                  nth_error v' (rank vm i) = nth_error v i.
+Proof. exact selection_vertex_kept. Qed.
+Print Assumptions C07_selection_vertex_kept.
+
+(* ... and there are no other vertices (positions are distinct: rank is injective on kept indices) *)
+Theorem C07_selection_vertex_from : forall vm cm o o' j x,
+  selection vm cm o o' -> nth_error (verts o') j = Some x ->
+  exists i, nth_error vm i = Some true /\ rank vm i = j /\ nth_error (verts o) i = Some x.
+Proof. exact selection_vertex_from. Qed.
+Print Assumptions C07_selection_vertex_from.
+
+Theorem C07_rank_injective : forall m i j,
+  nth_error m i = Some true -> nth_error m j = Some true -> rank m i = rank m j -> i = j.
+Proof. exact rank_inj. Qed.
+Print Assumptions C07_rank_injective.
+
+(* each surviving cell connects the same coordinates as before, references existing vertices, keeps its cell data *)
+Theorem C07_selection_cell_kept : forall vm cm o o' j c,
+  wf o -> selection vm cm o o' -> nth_error cm j = Some true -> nth_error (cells o) j = Some c ->
+  exists c', nth_error (cells o') (rank cm j) = Some c' /\ length c' = length c /\
+             map (nth_error (verts o')) c' = map (nth_error (verts o)) c /\
+             cell_ok (length (verts o')) c' /\
+             forall p k v, nth_error (kids o) p = Some k -> kassoc k = ACell -> kvals k = Some v ->
+               exists k' v', nth_error (kids o') p = Some k' /\ kid_id k' = kid_id k /\ kvals k' = Some v' /\
+                             nth_error v' (rank cm j) = nth_error v j.
+Proof. exact selection_cell_kept. Qed.
+Print Assumptions C07_selection_cell_kept.
+
+(* ... and every cell of the result is such a cell *)
+Theorem C07_selection_cell_from : forall vm cm o o' q c',
+  selection vm cm o o' -> nth_error (cells o') q = Some c' ->
+  exists j c, nth_error cm j = Some true /\ rank cm j = q /\ nth_error (cells o) j = Some c /\ c' = map (rank vm) c /\
+              map (nth_error (verts o')) c' = map (nth_error (verts o)) c.
+Proof. exact selection_cell_from. Qed.
+Print Assumptions C07_selection_cell_from.
+
+(* ------------------------------------------------------------------ remove_vertices (the rv_ theorems of DESIGN 5), any flags, Points and cell objects,
+   any index list: unsorted, repeated, negative (wrapping) indices *)
+
+(* rv_lengths *)
+Theorem C07_rv_lengths : forall fl o ix o', wf o -> remove_vertices fl o ix = Done o' -> wf o'.
+Proof.
+  intros fl o ix o' W H. destruct (remove_vertices_done fl o ix o' W H) as [I' [_ S]]. eapply selection_wf; eauto.
+Qed.
+Print Assumptions C07_rv_lengths.
+
+(* the result is the selection of the vertices whose index is not listed and of the cells using only those *)
+Theorem C07_rv_is_selection : forall fl o ix o', wf o -> remove_vertices fl o ix = Done o' ->
+  exists I', norm_all (length (verts o)) ix = Some I' /\
+             selection (vmask o I') (cell_mask (vmask o I') (cells o)) o o'.
+Proof. exact remove_vertices_done. Qed.
+Print Assumptions C07_rv_is_selection.
+
+(* rv_values: a vertex whose index is not removed keeps coordinates and values; the number of vertices is the number kept *)
+Theorem C07_rv_values : forall fl o ix o', wf o -> remove_vertices fl o ix = Done o' ->
+  exists I', norm_all (length (verts o)) ix = Some I' /\
+    length (verts o') = count (vmask o I') /\
+    forall i, i < length (verts o) -> ~ In i I' ->
+      nth_error (verts o') (rank (vmask o I') i) = nth_error (verts o) i /\
+      forall p k v, nth_error (kids o) p = Some k -> kassoc k = AVertex -> kvals k = Some v ->
+        exists k' v', nth_error (kids o') p = Some k' /\ kid_id k' = kid_id k /\ kassoc k' = AVertex /\ kvals k' = Some v' /\
+                      nth_error v' (rank (vmask o I') i) = nth_error v i.
+Proof.
+  intros fl o ix o' W H. destruct (remove_vertices_done fl o ix o' W H) as [I' [HN S]].
+  exists I'. split; [exact HN|]. split; [eapply selection_vertex_count; eauto|].
+  intros i Hi Hn. eapply selection_vertex_kept; eauto. apply vmask_true. auto.
+Qed.
+Print Assumptions C07_rv_values.
+
+(* rv_cells: every cell of the result comes from a cell that touches no removed vertex, joins the same coordinates, is in range *)
+Theorem C07_rv_cells : forall fl o ix o' q c', wf o -> remove_vertices fl o ix = Done o' ->
+  nth_error (cells o') q = Some c' ->
+  exists I' j c, norm_all (length (verts o)) ix = Some I' /\
+    nth_error (cells o) j = Some c /\ Forall (fun v => ~ In v I') c /\
+    map (nth_error (verts o')) c' = map (nth_error (verts o)) c /\
+    cell_ok (length (verts o')) c'.
+Proof.
+  intros fl o ix o' q c' W H Hq. destruct (remove_vertices_done fl o ix o' W H) as [I' [HN S]].
+  destruct (selection_cell_from _ _ _ _ _ _ S Hq) as [j [c (H1 & H2 & H3 & H4 & H5)]].
+  exists I', j, c. split; [exact HN|]. split; [exact H3|]. split; [apply (rv_cell_kept o I' j c W H3); exact H1|].
+  split; [exact H5|].
+  pose proof (selection_wf _ _ _ _ W S) as (Wc' & _ & _). rewrite Forall_forall in Wc'.
+  apply Wc'. eapply nth_error_In; eauto.
+Qed.
+Print Assumptions C07_rv_cells.
+
+(* rv_cells_complete: every cell touching no removed vertex survives, at the position given by the number of surviving
+   cells before it (hence exactly once and in order), with the same coordinates and its cell data; the cell count is
+   the number of such cells *)
+Theorem C07_rv_cells_complete : forall fl o ix o', wf o -> remove_vertices fl o ix = Done o' ->
+  exists I', norm_all (length (verts o)) ix = Some I' /\
+    let cm := cell_mask (vmask o I') (cells o) in
+    length (cells o') = count cm /\
+    forall j c, nth_error (cells o) j = Some c -> Forall (fun v => ~ In v I') c ->
+      exists c', nth_error (cells o') (rank cm j) = Some c' /\ length c' = length c /\
+                 map (nth_error (verts o')) c' = map (nth_error (verts o)) c /\
+                 cell_ok (length (verts o')) c' /\
+                 forall p k v, nth_error (kids o) p = Some k -> kassoc k = ACell -> kvals k = Some v ->
+                   exists k' v', nth_error (kids o') p = Some k' /\ kid_id k' = kid_id k /\ kvals k' = Some v' /\
+                                 nth_error v' (rank cm j) = nth_error v j.
+Proof.
+  intros fl o ix o' W H. destruct (remove_vertices_done fl o ix o' W H) as [I' [HN S]].
+  exists I'. split; [exact HN|]. cbv zeta. split; [eapply selection_cell_count; eauto|].
+  intros j c Hc Hf. eapply selection_cell_kept; eauto. apply (rv_cell_kept o I' j c W Hc). exact Hf.
+Qed.
+Print Assumptions C07_rv_cells_complete.
+
+(* ------------------------------------------------------------------ remove_cells and the masked copy are selections too *)
+Theorem C07_remove_cells_is_selection : forall fl o ix o', wf o -> remove_cells fl o ix = Done o' ->
+  exists I', norm_all (length (cells o)) ix = Some I' /\
+             selection (repeat true (length (verts o))) (keep_mask (length (cells o)) I') o o'.
+Proof. exact remove_cells_selection. Qed.
+Print Assumptions C07_remove_cells_is_selection.
+
+Theorem C07_masked_copy_is_selection : forall o ovm ocm o',
+  wf o -> (ovm = None \/ ocm = None) -> (ok o = OPoints -> ocm = None) ->
+  masked_copy o ovm ocm = Done o' ->
+  selection (mask_or_all ovm (length (verts o))) (copy_cmask o (mask_or_all ovm (length (verts o))) ocm) o o'.
+Proof. exact masked_copy_done. Qed.
+Print Assumptions C07_masked_copy_is_selection.
+
+(* ------------------------------------------------------------------ pad_reject *)
+Theorem C07_pad_reject : forall n k a v,
+  (length v < n -> format_length n k a v = Ok (v ++ repeat (ndv k) (n - length v))) /\
+  (length v = n -> format_length n k a v = Ok v) /\
+  (n < length v -> a <> AObject -> format_length n k a v = Err ValueError).
+Proof.
+  intros n k a v. split; [apply format_length_pad|]. split; [apply format_length_eq|apply format_length_reject].
+Qed.
+Print Assumptions C07_pad_reject.
+
+(* the values setter stores exactly format_length's answer in the child and nothing on refusal *)
+Theorem C07_set_values : forall o id v p k,
+  nth_error (kids o) p = Some k -> kid_id k = id ->
+  (forall q k0, q < p -> nth_error (kids o) q = Some k0 -> kid_id k0 <> id) ->
+  set_values o id v =
+    match format_length (n_values o (kassoc k)) (kkind k) (kassoc k) v with
+    | Ok v' => Done (set_kids o (firstn p (kids o) ++ set_vals k (Some v') :: skipn (S p) (kids o)))
+    | Err e => Failed e o
+    end.
+Proof. exact set_values_at. Qed.
+Print Assumptions C07_set_values.
+
+(* ------------------------------------------------------------------ failing operations *)
+(* full-strength statement: a failing operation leaves the object as it was (a refused add_data may leave a value-less child) *)
+Definition C07_atomic (fl : flags) : Prop :=
+  forall o p e o', wf o -> copy_args_ok o p -> step fl o p = Some (Failed e o') -> unchanged_or_stub o o'.
+
+(* REPAIRED code (fixes/C07-rv-no-cell-touched-stale-cells.patch + C07-rv-valueless-child-stale-data.patch): holds *)
+Theorem C07_atomic_repaired : C07_atomic repaired.
+Proof.
+  intros o p e o' W HC H. eapply step_failed; eauto. apply op_safe_repaired. exact HC.
+Qed.
+Print Assumptions C07_atomic_repaired.
+
+(* REFUTED for the pinned tree: removing vertex 0, used by no cell, from a 4-vertex curve raises after the vertices
+   and vertex data were replaced; the cells are left un-renumbered (witness replayed on the implementation) *)
+Theorem C07_atomic_refuted : ~ C07_atomic as_is.
+Proof.
+  intros A. pose proof (A witness_obj (RemoveVertices [0%Z]) _ _ witness_wf I witness_as_is) as (_ & Hv & _).
+  simpl in Hv. discriminate.
+Qed.
+Print Assumptions C07_atomic_refuted.
+
+(* PARTIAL for the pinned tree: atomicity holds for every operation that meets [op_safe as_is]: vertex removals that
+   touch at least one cell (or Points), on objects whose vertex/cell children all have values *)
+Theorem C07_atomic_as_is_partial : forall o p e o',
+  wf o -> op_safe as_is o p -> step as_is o p = Some (Failed e o') -> unchanged_or_stub o o'.
+Proof. intros o p e o'. apply step_failed. Qed.
+Print Assumptions C07_atomic_as_is_partial.
+
+(* ------------------------------------------------------------------ histories *)
+(* consistency is an invariant of every history of the repaired code (successful or failing operations, re-opens) *)
+Theorem C07_history_consistent_repaired : forall ops o, wf o -> copies_ok o ops -> wf (run repaired o ops).
+Proof. exact run_wf_repaired. Qed.
+Print Assumptions C07_history_consistent_repaired.
+
+(* REFUTED for the pinned tree: one valid removal makes a cell reference a missing vertex *)
+Theorem C07_history_consistent_refuted : ~ (forall ops o, wf o -> copies_ok o ops -> wf (run as_is o ops)).
+Proof.
+  intros A. assert (C : copies_ok witness_obj [RemoveVertices [0%Z]]) by (simpl; auto).
+  pose proof (A [RemoveVertices [0%Z]] witness_obj witness_wf C) as (Wc & _).
+  vm_compute in Wc. inversion Wc as [|? ? _ Wc']. inversion Wc' as [|? ? Hc _].
+  inversion Hc as [|? ? _ Hc']. inversion Hc' as [|? ? Hlt _]. lia.
+Qed.
+Print Assumptions C07_history_consistent_refuted.
+
+(* PARTIAL for the pinned tree: every single step that meets the side condition preserves consistency, hence so do
+   histories all of whose steps meet it *)
+Theorem C07_step_consistent_as_is : forall o p, wf o -> op_safe as_is o p -> wf (step_state as_is o p).
+Proof. intros o p. apply step_wf. Qed.
+Print Assumptions C07_step_consistent_as_is.
+
+Theorem C07_history_consistent_as_is_partial : forall ops o, wf o -> run_ok as_is o ops -> wf (run as_is o ops).
+Proof. exact (run_wf as_is). Qed.
+Print Assumptions C07_history_consistent_as_is_partial.
+
+(* ------------------------------------------------------------------ non-vacuity *)
+(* a consistent curve with an unreferenced vertex, vertex and cell data; removing vertices {3, 1} (unsorted, one repeated,
+   one given negatively) succeeds on both versions of the code, drops the two cells touching them and renumbers the rest *)
+Definition ex_obj : obj :=
+  {| ok := OCurve; verts := [(0,0,0); (1,0,0); (2,0,0); (3,0,0); (4,0,0)]%Z; cells := [[0;2];[1;2];[2;4];[3;4]];
+     kids := [{| kid_id := 1; kassoc := AVertex; kkind := KFloat; kvals := Some [Some 10; Some 11; None; Some 13; Some 14]%Z |};
+              {| kid_id := 2; kassoc := ACell; kkind := KInt; kvals := Some [Some 20; Some 21; Some 22; Some 23]%Z |}] |}.
+
+Example C07_nonvacuous :
+  wf ex_obj /\ op_safe as_is ex_obj (RemoveVertices [3; -4; 3]%Z) /\ copies_ok ex_obj [RemoveVertices [3; -4; 3]%Z] /\
+  remove_vertices as_is ex_obj [3; -4; 3]%Z =
+    Done {| ok := OCurve; verts := [(0,0,0); (2,0,0); (4,0,0)]%Z; cells := [[0;1];[1;2]];
+            kids := [{| kid_id := 1; kassoc := AVertex; kkind := KFloat; kvals := Some [Some 10; None; Some 14]%Z |};
+                     {| kid_id := 2; kassoc := ACell; kkind := KInt; kvals := Some [Some 20; Some 22]%Z |}] |} /\
+  remove_vertices repaired ex_obj [3; -4; 3]%Z = remove_vertices as_is ex_obj [3; -4; 3]%Z.
+Proof.
+  split; [|split; [|split; [|split]]].
+  - split; [|split]; [repeat constructor|repeat constructor|discriminate].
+  - simpl. split.
+    + right. split; intros k [<-|[<-|[]]]; simpl; discriminate.
+    + right. right. intros I' HN. vm_compute in HN. injection HN as <-.
+      exists [1;2], 1. simpl. auto.
+  - simpl. auto.
+  - vm_compute. reflexivity.
+  - vm_compute. reflexivity.
+Qed.
+
+(* the refuted statements' hypotheses are met by the witness (so the refutation is not about an ill-formed input) *)
+Example C07_witness_consistent : wf witness_obj /\ copy_args_ok witness_obj (RemoveVertices [0%Z]).
+Proof. split; [exact witness_wf|exact I]. Qed.
+
+(* a failing operation exists for the repaired code too (so C07_atomic_repaired is not vacuous): out-of-range index *)
+Example C07_repaired_failure :
+  step repaired ex_obj (RemoveVertices [7%Z]) = Some (Failed ValueError ex_obj) /\
+  step repaired ex_obj (SetValues 1 [Some 1; Some 2; Some 3; Some 4; Some 5; Some 6]%Z) = Some (Failed ValueError ex_obj).
+Proof. split; vm_compute; reflexivity. Qed.
